@@ -96,7 +96,8 @@ def main():
         stride = int(sys.argv[2]) if len(sys.argv) > 2 else 1
         off = int(sys.argv[3]) if len(sys.argv) > 3 else 0
         ops = os.environ.get("AUTOMUT_OPS")
-        sel = [x for x in c if not ops or re.search(ops, x[2])][off::stride]
+        files = os.environ.get("AUTOMUT_FILES")
+        sel = [x for x in c if (not ops or re.search(ops, x[2])) and (not files or re.search(files, x[0]))][off::stride]
         print(len(c), "candidates,", len(sel), "selected")
         for x in sel[:20]:
             print(x)
@@ -138,7 +139,8 @@ def main():
     repo, harness = lane + "/repo", lane + "/harness"
     env = f"CARGO_NET_OFFLINE=true VERIF_ROOT={lane}/out VERIF_REPO={repo}"
     ops = os.environ.get("AUTOMUT_OPS")  # optional regex on the operator name
-    sel = [c for c in candidates(repo) if not ops or re.search(ops, c[2])][off::stride]
+    files = os.environ.get("AUTOMUT_FILES")  # optional regex on the file path
+    sel = [c for c in candidates(repo) if (not ops or re.search(ops, c[2])) and (not files or re.search(files, c[0]))][off::stride]
     done = set()
     tsv = lane + "/automut.tsv"
     if os.path.exists(tsv):
